@@ -123,11 +123,17 @@ fn validate_any_string(
         return Some(ValidationError::full(unterminated_string_diagnostic_kind));
     };
 
-    validate_string_body(body, unterminated_string_diagnostic_kind, ascii_only_diagnostic_kind)
+    validate_string_body(
+        body,
+        delimiter,
+        unterminated_string_diagnostic_kind,
+        ascii_only_diagnostic_kind,
+    )
 }
 
 fn validate_string_body(
     body: &str,
+    delimiter: char,
     unterminated_string_diagnostic_kind: ParserDiagnosticKind,
     ascii_only_diagnostic_kind: ParserDiagnosticKind,
 ) -> Option<ValidationError> {
@@ -139,7 +145,13 @@ fn validate_string_body(
         Err(
             unescaper::Error::InvalidChar { pos, .. } | unescaper::Error::ParseIntError { pos, .. },
         ) => {
-            let start = body.chars().take(pos).map(TextWidth::from_char).sum();
+            // The cursor is relative to the start of the literal, which begins with the opening
+            // delimiter (summing the widths of the body chars alone may end inside a char).
+            let start = std::iter::once(delimiter)
+                .chain(body.chars())
+                .take(pos)
+                .map(TextWidth::from_char)
+                .sum();
             return Some(ValidationError {
                 kind: ParserDiagnosticKind::IllegalStringEscaping,
                 location: ValidationLocation::Cursor(start),
